@@ -6,7 +6,7 @@ Driver for M9.  Request (prefix notation, one token per word):
   `pm <mode> <env> <ty> <narms> <pat>…`      mode ::= w (witnesses, C12) | u (useful flags, C13) | wu
   env  ::= <nenums> { <nvariants> { <nfields> <ty>… } }          enum ids are 0..nenums-1
   ty   ::= B | V | I | F | S | T <n> <ty>… | R <id> <n> <ty>… | E <id>
-  pat  ::= _ | b | pt | pf | i<int> | d<bits> | s<hex> | n | T <n> <pat>… | R <id> <n> <pat>…
+  pat  ::= _ | b | b<slot> | pt | pf | i<int> | d<bits> | s<hex> | n | T <n> <pat>… | R <id> <n> <pat>…
          | v0 <eid> <idx> | vp <eid> <idx> <pat> | vn <eid> <idx> <n> <pat>… | or <pat> <pat>
 
 Answer: `u=<one 0/1 per arm> w=<witness strings, sorted, joined by ;>` — the witness strings are the
@@ -122,7 +122,8 @@ def pPatF : Nat → P Pat
       | some (l, ws) => (pPatF fuel ws).map (fun (r, ws) => (.or l r, ws))
       | none => none
     | _ =>
-      if w.startsWith "i" then (parseInt? (w.drop 1).toString).map (fun i => (.int i, ws))
+      if w.startsWith "b" then (parseNat? (w.drop 1).toString).map (fun i => (.bind i, ws))
+      else if w.startsWith "i" then (parseInt? (w.drop 1).toString).map (fun i => (.int i, ws))
       else if w.startsWith "d" then (parseNat? (w.drop 1).toString).map (fun i => (.float i, ws))
       else if w.startsWith "s" then (unhex (w.drop 1).toString).map (fun s => (.str s, ws))
       else none
